@@ -1135,6 +1135,24 @@ static void corpusCases(vh::Rng& rng) {
       mk(T::AND, { mk(T::EQUAL, { L("a"), L("b") }), mk(T::EQUAL, { L("c"), L("c") }) }) });
     runCase(cx, e2, "corpus.enum-tuple-pattern", false);
   }
+  // the copied domain of an enumerated declaration binds a variable named like an earlier variable of
+  // the declaration: every binder restores the outer value of its slot (SlotGuard)
+  {
+    auto dom = [&](EP base) { return mk(T::NT_DECLARATIVE_EXPR, { L("a"), base, mk(T::EQUAL, { mkInt(1), mkInt(1) }) }); };
+    auto s12 = [&] { return mk(T::NT_ENUMERATION, { mkInt(1), mkInt(2) }); };
+    runCase(cx, mk(T::EXISTS, { mk(T::NT_ENUM_DECL, { L("a"), L("b") }), dom(s12()),
+      mk(T::AND, { mk(T::EQUAL, { L("a"), mkInt(1) }), mk(T::EQUAL, { L("b"), L("b") }) }) }), "corpus.enum-domain-rebinds", false);
+    runCase(cx, mk(T::FORALL, { mk(T::NT_ENUM_DECL, { L("a"), L("b"), L("c") }), dom(s12()),
+      mk(T::OR, { mk(T::EQUAL, { L("a"), L("b") }), mk(T::OR, { mk(T::EQUAL, { L("b"), L("c") }), mk(T::EQUAL, { L("a"), L("c") }) }) }) }),
+      "corpus.enum-domain-rebinds", false);
+    runCase(cx, mk(T::EXISTS, { mk(T::NT_ENUM_DECL, { L("a"), L("b") }), dom(G("X1")),
+      mk(T::AND, { mk(T::NOTEQUAL, { L("a"), L("b") }), mk(T::IN, { L("a"), mk(T::NT_ENUMERATION, { L("b"), L("a") }) }) }) }),
+      "corpus.enum-domain-rebinds", false);
+    // the same through the other binders: recursion, imperative blocks
+    runCase(cx, mk(T::EXISTS, { mk(T::NT_ENUM_DECL, { L("a"), L("b") }),
+      mk(T::NT_IMPERATIVE_EXPR, { L("a"), mk(T::ITERATE, { L("a"), s12() }) }),
+      mk(T::AND, { mk(T::EQUAL, { L("a"), mkInt(1) }), mk(T::EQUAL, { L("b"), L("b") }) }) }), "corpus.enum-domain-rebinds", false);
+  }
 }
 
 // recorded finding: a function / predicate definition or a structure declaration is accepted by the
